@@ -15,6 +15,7 @@ RULE = ('Graphs and queries as C12 (random) plus, in the thorough tier, every pr
         'a subset (numpy RNG seeded from the case); all_time_respecting_paths(start, end, min_t=m) == {(u, w): paths} over '
         'the nodes present at m. non-trivial = the enumerated set has >= 2 paths, one of them with >= 2 hops.')
 ASSUMPTIONS = ['e > t', "node ids are ints or '_'-free strings", 'windows lie inside [first id, last id]']
+TECHNIQUE = 'PBT against a brute-force enumeration oracle written from the statement; exhaustive small universes (thorough)'
 BUDGET = {'quick': {'cases': 8000, 'seconds': 50}, 'thorough': {'cases': 60000, 'seconds': 560}}
 QUERIES = st.lists(pc.QUERY, min_size=3, max_size=3)
 TRIG = 'root_selfloop_in_window'
